@@ -105,8 +105,11 @@ class Ctx:
             "violations": getattr(self, "violation_count", 0),
             "known_findings_reported": self.known,
         }
-        os.makedirs(os.path.join(VERIF, "evidence"), exist_ok=True)
-        p = os.path.join(VERIF, "evidence", "%s.json" % self.prop)
+        # evidence under /verif/evidence always describes /repo itself; runs against another tree
+        # (VERIF_REPO=<scratch worktree>, e.g. seeded changes) leave it alone
+        edir = os.path.join(VERIF, "evidence") if os.path.realpath(self.repo) == "/repo" else os.path.join(VERIF, ".scratch", "evidence-other-tree")
+        os.makedirs(edir, exist_ok=True)
+        p = os.path.join(edir, "%s.json" % self.prop)
         tmp = p + ".tmp%d" % os.getpid()
         with open(tmp, "w") as f:
             json.dump(ev, f, indent=1, sort_keys=True, default=str)
